@@ -148,9 +148,19 @@ def run(tier, t0):
             out[i] = res
         return out
 
+    import time as _t
+    import gc
+    gc.disable()          # the parent only shuffles large result tuples around; cyclic GC passes over them are pure overhead
+    _tp = [_t.time()]
+
+    def phase(name):
+        acc.notes.append('phase %s: %.1fs' % (name, _t.time() - _tp[0]))
+        _tp[0] = _t.time()
+
     k = many(prepare, [None])[0]
     full = build_menu(k)
     by_name = {ev[0]: ev for ev in full}
+    phase('prepare')
     # ---- level 1: every event from the pristine state (these values are the oracle)
     h0, lvl1, _ = many(history.expand, [([], full, None)])[0]
     expected = {}
@@ -169,12 +179,15 @@ def run(tier, t0):
             acc.n['validated'] += 1
         if h not in seen:
             seen[h] = [name]
+    phase('level1')
     # validate the oracle itself against genuinely fresh interpreters
     picks = [full[(i * 97 + common.seed() * 13) % len(full)] for i in range(12)] + pure_menu(k)[:4]
     for name, (res, prob) in many(_fresh_task, picks):
         acc.n['fresh_interpreter_comparisons'] += 1
         if res != expected[name]:
             acc.violation(f'c17:fresh:{name}', f'{name}: a fresh interpreter returns a different value than the pristine forked process', {'history': [], 'event': name, 'fresh': True})
+
+    phase('fresh')
 
     def record(hist_names, menu, result, label=None):
         hh, outs, problems = result
@@ -210,6 +223,7 @@ def run(tier, t0):
     for (oname, order), res in zip(orders.items(), many(history.expand, sat_tasks)):
         record(list(order), full, res, label=f'<saturation:{oname}>')
         acc.n['saturation_events'] += len(order) + len(full)
+    phase('saturation')
     # ---- BFS depth 2 (and 3 on a sub-menu) with state-hash deduplication
     if tier == 'quick':
         menu2 = build_menu(k, faces={0, 6, 11}, tris={0, 9})
@@ -226,13 +240,20 @@ def run(tier, t0):
     # successor states only need an identity where they can be extended (histories inside the depth-3 sub-menu) - hashing is the expensive part
     tasks = [([by_name[h[0]]], menu2, expected, (subnames if h[0] in subnames else set()) if tier == 'quick' else None) for h in lvl1_hist if h[0] in in_menu2]
     frontier2 = []
-    for (hist, _, _, _), res in zip(tasks, many(history.expand, tasks)):
-        frontier2 += record([hist[0][0]], menu2, res)
+    for i, res in common.fresh_map(history.expand, tasks, timeout=900):        # streamed: results are large, never hold them all
+        if isinstance(res, Exception):
+            raise res
+        frontier2 += record([tasks[i][0][0][0]], menu2, res)
+    frontier2.sort()
     acc.strata['depth2_histories_expanded'] = len(tasks)
+    phase('depth2')
     tasks3 = [([by_name[n] for n in h], sub, expected) for h in frontier2 if all(n in subnames for n in h)]
-    for (hist, _, _), res in zip(tasks3, many(history.expand, tasks3)):
-        record([e[0] for e in hist], sub, res)
+    for i, res in common.fresh_map(history.expand, tasks3, timeout=900):
+        if isinstance(res, Exception):
+            raise res
+        record([e[0] for e in tasks3[i][0]], sub, res)
     acc.strata['depth3_histories_expanded'] = len(tasks3)
+    phase('depth3')
     # ---- tie clusters: all histories of length 2 inside each cluster (boundary points x centres of the surrounding cells)
     cl_tasks = []
     cl_menus = []
@@ -267,6 +288,7 @@ def run(tier, t0):
                 seen[h] = [hist[0][0], name]
     acc.strata['tie_clusters'] = len(cl_menus)
     acc.strata['tie_cluster_histories'] = len(cl_tasks)
+    phase('clusters')
     acc.n['states'] = len(seen)
     acc.n['nontrivial'] = len(seen)
     acc.n['menu_events'] = len(full)
